@@ -13,8 +13,8 @@ IMPORTS = ("From Coq Require Import List ZArith QArith Bool.\nImport ListNotatio
 CASE_T = "list Z * list (list Z) * nat * nat * nat * bool * bool * (Z * Z) * list (Z * Z * Z * Z)"
 ABS, REL = Fraction(1, 10 ** 8), Fraction(1, 10 ** 8)      # the property's tolerance
 COND_MAX = 1e6
-RES_BUDGET_S = 2.0
-SEQ_BUDGET_S = 1.0
+RES_BUDGET_S = {"quick": 2.0, "thorough": 6.0}      # estimated vm_compute seconds per sample
+SEQ_BUDGET_S = {"quick": 1.0, "thorough": 3.0}
 
 
 def tol_of(v):
@@ -250,7 +250,7 @@ def run(chk):
         t += 1
         r = rng.random()
         kx, ky = (1, 1) if r < 0.25 else (int(rng.integers(1, 4)), int(rng.integers(1, 4)))
-        kz = 0 if rng.random() < 0.25 else int(rng.integers(0, 5))
+        kz = 0 if rng.random() < 0.25 else int(rng.integers(1, 5))
         dim = kx + ky + kz
         N = int(rng.integers(max(6, dim + 2), 41))
         maxbits = int(rng.choice([8, 12, 15]))
@@ -269,9 +269,9 @@ def run(chk):
         ref, q = ex
         if exact_residual_form(fcols, ix, iy, iz) != q:
             raise RuntimeError("harness self-check: Schur-complement form and residual-vector form differ in exact arithmetic")
-        with_res = res_cost_estimate(kx, ky, kz, N, maxbits) <= RES_BUDGET_S
+        with_res = res_cost_estimate(kx, ky, kz, N, maxbits) <= RES_BUDGET_S[chk.tier]
         chk.count("residual_form_in_coq.evaluated" if with_res else "residual_form_in_coq.skipped_too_slow")
-        with_seq = with_res and seq_cost_estimate(kx, ky, kz, N, maxbits) <= SEQ_BUDGET_S
+        with_seq = with_res and seq_cost_estimate(kx, ky, kz, N, maxbits) <= SEQ_BUDGET_S[chk.tier]
         chk.count("sequential_residual_form_in_coq.evaluated" if with_seq else "sequential_residual_form_in_coq.skipped_too_slow")
         X, Y, Z = split(F, kx, ky, kz)
         chk.count(f"cond.1e{int(math.floor(math.log10(max(cond, 1.0))))}")
@@ -403,12 +403,14 @@ def run(chk):
         chk.count(f"malformed.{kind}")
         chk.case(key=("malformed", kind, kx, ky, kz, N, k), nontrivial=False)
     chk.rule = ("N 6..40 (> dim+1), k_x,k_y 1..3 (25% scalar), k_z 0..4 (Z = None when 0; also an (N,0) array), samples from Gaussian "
-                "mixtures through random affine maps with an optional near-collinear column, quantised to 11..15-bit integers plus "
+                "mixtures through random affine maps with an optional near-collinear column, quantised to 6..15-bit integers plus "
                 "integer offsets, times a per-column power of two 2^-20..2^12 (floats exact); joint correlation condition number <= 1e6 "
                 "(histogram in stats). Each sample: gaussian_conditional_mutual_information, gaussian_mutual_information / Z=None / empty Z "
-                "when k_z = 0, and the dispatcher. Inside Coq the determinant form (scatter and correlation variants) and the "
-                "least-squares residual form are computed exactly in Q and must coincide, and 1/2 ln ratio is enclosed by verified "
-                "interval arithmetic and must contain every returned value within 1e-8 + 1e-8|v|. Predicate on the implementation "
-                "(independent of the model): exact-Fraction partial-covariance closed form, numpy lstsq residual form, scalar "
-                "-1/2 log(1-r^2), non-negativity, affine-rescaling / Z-mixing / X-Y-swap invariance, chain rule. Degenerate samples "
-                "(constant or duplicated column) only: returns a float without raising.")
+                "when k_z = 0, and the dispatcher. Inside Coq the determinant form (scatter and correlation variants) is computed exactly "
+                "in Q and must equal the harness's exact-Fraction ratio; on the samples where Gram-Schmidt over big rationals is affordable "
+                "under vm_compute (counted in stats) the least-squares residual form and the sequential residual form must coincide with "
+                "it as well; 1/2 ln ratio and the code's four-logarithm form are enclosed by verified interval arithmetic and must contain "
+                "every returned value within 1e-8 + 1e-8|v|. Predicate on the implementation (independent of the model): exact-Fraction "
+                "partial-covariance closed form (cross-checked against exact Gram-Schmidt residual vectors on every sample), numpy lstsq "
+                "residual form, scalar -1/2 log(1-r^2), non-negativity, affine-rescaling / Z-mixing / X-Y-swap invariance, chain rule. "
+                "Degenerate samples (constant or duplicated column) only: returns a float without raising.")
